@@ -11,6 +11,7 @@
  R4 method gate : the analytic branch is selected by equality with 'gn_model_analytic' and unknown methods raise.
  Rm memo          : every memoisation construct in the functions behind this property is keyed by everything it reads.
  Rp presence      : optional numeric fields are tested with `is None` / membership, never by truthiness (0 is a value).
+ Rs sorted        : every numpy.interp abscissa is ascending by construction or by a recorded precondition.
 """
 import ast
 from fractions import Fraction
@@ -271,6 +272,15 @@ def r5_sorted(ctx):
 
 
 
+def rs_sorted(ctx):
+    """Rs: every numpy.interp call behind this property interpolates over an abscissa that is ascending by construction or by a
+    recorded precondition (numpy.interp does not check)"""
+    from .common import interp_rule
+    repo = ctx.repo
+    interp_rule(ctx, 'Rs.sorted-abscissa', [f for c_ in repo.module('gnpy.core.science_utils').classes.values() for f in c_.all_funcs()], 'the NLI of the channels that were not computed would be interpolated wrongly')
+    ctx.need('Rs.sorted-abscissa', 2)
+
+
 from ..memo import rule_for as _memo_rule
 
 RULES_MEMO = ('Rm.memo', _memo_rule('C03', 'the NLI of another fibre configuration or spectrum would be applied'))
@@ -280,4 +290,4 @@ from ..presence import rule_for as _presence_rule
 
 RULES_PRESENCE = ('Rp.presence', _presence_rule('C03', 'a fibre given an explicit 0 would get the default model instead'))
 
-RULES = [('R5.order-independence', r5_sorted), ('R1.closed-form', r1_closed_form), ('R2.combination', r2_combination), ('R3.coefficients', r3_coefficients), RULES_MEMO, RULES_PRESENCE]
+RULES = [('R5.order-independence', r5_sorted), ('R1.closed-form', r1_closed_form), ('R2.combination', r2_combination), ('R3.coefficients', r3_coefficients), RULES_MEMO, RULES_PRESENCE, ('Rs.sorted-abscissa', rs_sorted)]
